@@ -13,7 +13,7 @@
    rewrite relation; the skip and squash lemmas by induction on the input), no axioms. *)
 From Coq Require Import List NArith.
 Import ListNotations.
-From PP Require Import Base Syntax Spec SpecSyn SpecMono SpecLaws SpecEquiv Opt OptProof OptSkip Interp InterpProof Gen GenProof OptPass OptPassProof OptPassInline OptPassCompose OptPassIdem.
+From PP Require Import Base Syntax Spec SpecSyn SpecMono SpecLaws SpecEquiv Opt OptProof OptSkip Interp InterpProof Gen GenProof OptPass OptPassProof OptPassInline OptPassCompose OptPassIdem OptPassSilent OptPassSkip OptPassHeads.
 
 (* `req`: same constructor; on success the same tree and the same final position, stack and tags;
    failure with failure; undefined rule with undefined rule *)
@@ -174,6 +174,20 @@ Theorem C02_modelled_passes_compose : forall bi g g',
     (forall f r, parse g' f rule input k = r -> r <> Fuel -> exists f', req (parse g f' rule input k) r).
 Proof. exact psteps_geq. Qed.
 
+(* ---- what no modelled pass changes ----
+   all four modelled passes (unroll, inline built-in, and the two in-place passes inline silent and skip, which are
+   tied exactly but whose meaning preservation is NOT proved) return the same rules in the same order, each with its
+   name, silence and atomicity: only bodies are rewritten; no rule is added, dropped, renamed or re-modified *)
+Theorem C02_modelled_passes_keep_rule_heads : forall bi any_id fuel order g,
+  same_heads g (pass_unroll bi g) /\
+  same_heads g (pass_inline_silent bi order g) /\
+  (forall g', pass_skip bi any_id fuel order g = Some g' -> same_heads g g') /\
+  (forall g', all_grammar count_ok g = true -> pass_inline_builtin bi fuel g = Some g' -> same_heads g g').
+Proof.
+  intros bi any_id fuel order g. split; [apply unroll_pass_heads|]. split; [apply inline_silent_heads|].
+  split; [intros g'; apply skip_heads|intros g'; apply inline_builtin_pass_heads].
+Qed.
+
 (* non-vacuity: the checker accepts a real optimizer output (unroll + squash + fused SKIP rule) and
    rejects the reordering of "a" | "ab" and a skip rewrite where trivia applies *)
 Definition R n sil k b := {| r_name := n; r_silent := sil; r_kind := k; r_body := b |}.
@@ -246,6 +260,7 @@ Qed.
 Print Assumptions C02_validated_optimization_preserves_meaning.
 Print Assumptions C02_modelled_passes_compose.
 Print Assumptions C02_unroll_pass_idempotent.
+Print Assumptions C02_modelled_passes_keep_rule_heads.
 Print Assumptions C02_inline_builtin_pass_output_is_validated.
 Print Assumptions C02_inline_builtin_pass_preserves_meaning.
 Print Assumptions C02_unroll_pass_output_is_validated.
